@@ -267,8 +267,10 @@ func evaluateNodeValue(node *ExprNode, data map[string]any) (any, error) {
 		return evaluateFunctionValue(node, data)
 
 	case TypeCase:
-		// Handle CASE expression
-		return evaluateCaseExpression(node, data)
+		// Handle CASE expression: keep the type of the selected branch (a text result
+		// must not be turned into a number by the numeric evaluator)
+		val, _, err := evaluateCaseExpressionWithNull(node, data)
+		return val, err
 
 	case TypeParenthesis:
 		// Handle parenthesis expression, directly evaluate inner expression
